@@ -1,8 +1,85 @@
 import D2V.Model.Path
+import D2V.Proofs.RenderLemmas
 /-! C34 — Multi-board output stays inside the output location, one file per board. -/
 namespace D2V.Path
 
+/-- **C34_inside_and_distinct** (the property on the safe region).
+    Output path `/S₁/…/Sₖ` + extension (what `ms.AbsPath` hands to `render`: absolute, cleaned, ordinary elements, an
+    extension as `filepath.Ext` yields it), a board tree in which every board name is an ordinary path element
+    (`SafeB`: non-empty, no '/', not `.`/`..`), sibling names are pairwise different and a sub-board named `index`
+    that sits directly in its parent's directory has sub-boards itself (`GoodB`).  Then, for the effect list of
+    `render` — computed with `filepath.Ext/TrimSuffix/Join` exactly as the Go code does —
+      1. every file written is the output path itself or lies below the directory `/S₁/…/Sₖ/`,
+      2. every `os.RemoveAll` target is that directory or lies below it,
+      3. no two boards are written to the same file. -/
+theorem C34_inside_and_distinct (S : List Str) (e : Str) (root : Board)
+    (hS : ∀ c ∈ S, Normal c) (hne : S ≠ []) (he : GoodExt e) (hsafe : SafeB root) (hgood : GoodB root) :
+    (∀ p ∈ writesOf (renderB ('/' :: inter S ++ e) root),
+        p = '/' :: inter S ++ e ∨ ∃ rest, p = '/' :: inter S ++ '/' :: rest) ∧
+    (∀ d ∈ removesOf (renderB ('/' :: inter S ++ e) root),
+        d = '/' :: inter S ∨ ∃ rest, d = '/' :: inter S ++ '/' :: rest) ∧
+    (writesOf (renderB ('/' :: inter S ++ e) root)).Nodup := by
+  rw [bridgeB e he root S hS hne hsafe, writesOf_map, removesOf_map]
+  have hin : ∀ ev ∈ renderA S root, S <+: ev.path := fun ev hev =>
+    List.IsPrefix.trans (prefix_boardPath S root) (insideB root S ev hev)
+  have hnorm := normalB root S hS hsafe
+  refine ⟨?_, ?_, ?_⟩
+  · intro p hp
+    obtain ⟨q, hq, rfl⟩ := List.mem_map.mp hp
+    obtain ⟨ev, hev, hpath⟩ := mem_awrites hq
+    have hpre := hin ev hev
+    rw [hpath] at hpre
+    rcases path_under S q hne hpre with h | ⟨t, ht⟩
+    · left; simp only [List.cons.injEq, true_and] at h; simp [h]
+    · right
+      refine ⟨t ++ e, ?_⟩
+      have : '/' :: inter q = '/' :: inter S ++ '/' :: t := by rw [← ht]; simp
+      simp only [List.cons_append] at this ⊢
+      rw [List.cons.injEq] at this
+      simp [this.2]
+  · intro d hd
+    obtain ⟨q, hq, rfl⟩ := List.mem_map.mp hd
+    obtain ⟨ev, hev, hpath⟩ := mem_aremoves hq
+    have hpre := hin ev hev
+    rw [hpath] at hpre
+    rcases path_under S q hne hpre with h | ⟨t, ht⟩
+    · left; exact h
+    · right
+      refine ⟨t, ?_⟩
+      rw [← ht]; simp
+  · apply nodup_map_on _ _ (distinctB root S hgood)
+    intro x hx y hy hxy
+    obtain ⟨ex, hex, hpx⟩ := mem_awrites hx
+    obtain ⟨ey, hey, hpy⟩ := mem_awrites hy
+    have nx : ∀ c ∈ x, Normal c := by rw [← hpx]; exact hnorm ex hex
+    have ny : ∀ c ∈ y, Normal c := by rw [← hpy]; exact hnorm ey hey
+    have px : S <+: x := by rw [← hpx]; exact hin ex hex
+    have py : S <+: y := by rw [← hpy]; exact hin ey hey
+    have x0 : x ≠ [] := by intro h; subst h; exact hne (List.prefix_nil.mp px)
+    have y0 : y ≠ [] := by intro h; subst h; exact hne (List.prefix_nil.mp py)
+    have h1 : inter x = inter y := by
+      have := List.cons.inj hxy
+      exact List.append_cancel_right this.2
+    exact inter_inj x y nx ny x0 y0 h1
+
 def s (x : String) : Str := x.toList
+
+/-- the hypotheses are satisfiable and the conclusion is about real paths: root with layers `a` (with a sub-layer) and `b` -/
+example :
+    let root : Board := .mk [] false [.mk (s "a") false [.mk (s "k") false [] [] []] [] [], .mk (s "b") false [] [] []] [] []
+    writesOf (renderB (s "/w/out/o.svg") root) =
+      [s "/w/out/o/a/k.svg", s "/w/out/o/a/index.svg", s "/w/out/o/b.svg", s "/w/out/o/index.svg"] := by
+  decide
+
+def okTree : Board := .mk [] false [.mk (s "a") false [.mk (s "k") false [] [] []] [] [], .mk (s "b") false [] [] []] [] []
+
+/-- that tree satisfies the hypotheses of `C34_inside_and_distinct` (with S = [w, out, o], e = .svg) -/
+example : SafeB okTree ∧ GoodB okTree ∧ (∀ c ∈ [s "w", s "out", s "o"], Normal c) ∧ GoodExt (s ".svg") := by
+  refine ⟨?_, ?_, ?_, ?_⟩
+  · simp [okTree, SafeB, SafeL, Normal, NoSlash, s, dot, dotdot]
+  · simp [okTree, GoodB, GoodL, namesOK, indexOK, s, Board.name, sIndex]
+  · simp [Normal, NoSlash, s, dot, dotdot]
+  · exact ⟨s "svg", by decide, by decide, by decide⟩
 
 /-- root board `x` with one layer named `../../victim` that has a sub-layer `z` -/
 def cxDotdot : Board := .mk [] false [.mk (s "../../victim") false [.mk (s "z") false [] [] []] [] []] [] []
